@@ -277,6 +277,11 @@ func c20Check(t *jet.Template) {
 	vfAssert(v.nils == 0, "the visitor is never handed a nil node")
 	var want []jet.Node
 	c20All(t.Root, &want)
+	for i := range v.seen {
+		for j := 0; j < i; j++ {
+			vfAssert(v.seen[i] != v.seen[j], "no node is visited twice (a node is one place of the tree)")
+		}
+	}
 	vfAssert(len(v.seen) == len(want), "every node is visited exactly once")
 	if len(v.seen) == len(want) {
 		for i := range want {
